@@ -699,7 +699,7 @@ class PreDef:
     """
 
     types = cssutils.cssproductions.CSSProductions
-    reHexcolor = re.compile(r'^\#(?:[0-9abcdefABCDEF]{3}|[0-9abcdefABCDEF]{6})$')
+    reHexcolor = re.compile(r'^\#(?:[0-9abcdefABCDEF]{3}|[0-9abcdefABCDEF]{6})\Z')
 
     @staticmethod
     def calc(toSeq=None, nextSor=False):
